@@ -61,6 +61,8 @@ func c11bAlphabet() []c11bind {
 		{X, "s2", "", true, "g", true},
 		{Y, "", "q2", false, "", true},
 		{X, "", "q2", true, "", false},
+		// the first schedule written with other spacing (column-aligned): the binding fires like any other
+		{"*  *  *  *  *", "s3", "", false, "", false},
 	}
 }
 
@@ -154,16 +156,14 @@ func c11bRun(a, b []c11bind, seq []string) (sig, what, outcome string) {
 				want[bd.crontab] = append(want[bd.crontab], fmt.Sprintf("%+v", c11expected(hn, bd)))
 			}
 		}
+		// the tasks of one tick of every schedule, whatever string each job reports as its crontab
 		norm := func(m map[string][]string) string {
-			var parts []string
+			var l []string
 			for _, k := range sortedKeys(m) {
-				l := append([]string{}, m[k]...)
-				sort.Strings(l)
-				if len(l) > 0 {
-					parts = append(parts, k+" => "+strings.Join(l, ", "))
-				}
+				l = append(l, m[k]...)
 			}
-			return strings.Join(parts, " ; ")
+			sort.Strings(l)
+			return strings.Join(l, ", ")
 		}
 		if norm(got) != norm(want) {
 			return "C11b tasks-per-tick after=" + step[:2], fmt.Sprintf("after %s one tick of every live crontab produced [%s], want [%s]", step, norm(got), norm(want)), ""
